@@ -46,6 +46,7 @@ const (
 	opSTAKE        = 0xee
 	opUNSTAKE      = 0xef
 	opUNSTAKEALL   = 0xeb
+	opSTAKENUM     = 0xea
 )
 
 type fixup struct {
@@ -341,6 +342,10 @@ func (c *compiler) body(a *asm, f *frame, self string) {
 		case 'V':
 			a.push(0)
 			a.op(opUNSTAKEALL, opPOP)
+		case 'Q':
+			ptr, _ := c.ab.resolveName(x.addr)
+			a.pushBytes(ptr[:])
+			a.op(opSTAKENUM, opPOP)
 		}
 	}
 	switch f.end {
@@ -379,7 +384,7 @@ func (c *compiler) body(a *asm, f *frame, self string) {
 }
 
 func amountWei(units int) []byte {
-	v := new(big.Int).Mul(big.NewInt(int64(units)), big.NewInt(1000000000))
+	v := new(big.Int).Mul(big.NewInt(int64(units)), oneRPG) // whole RPG
 	b := v.Bytes()
 	if len(b) == 0 {
 		b = []byte{0}
